@@ -366,3 +366,33 @@ func isNilIdent(info *types.Info, e ast.Expr) bool {
 	_, isNil := info.Uses[id].(*types.Nil)
 	return isNil
 }
+
+// lexicalGuards collects the facts established by the if statements and
+// tagless/tagged switch cases that lexically enclose n, up to (excluding)
+// stop. Used for statements go/cfg does not materialise as nodes
+// (continue, break, goto).
+func lexicalGuards(pm map[ast.Node]ast.Node, n ast.Node, stop ast.Node) []Atom {
+	var out []Atom
+	child := n
+	for cur := pm[n]; cur != nil && cur != stop; child, cur = cur, pm[cur] {
+		switch x := cur.(type) {
+		case *ast.IfStmt:
+			if child == x.Body {
+				out = append(out, implied(x.Cond, nil, true)...)
+			} else if child == x.Else {
+				out = append(out, implied(x.Cond, nil, false)...)
+			}
+		case *ast.CaseClause:
+			if len(x.List) == 1 {
+				var tag ast.Expr
+				if blk, ok := pm[x].(*ast.BlockStmt); ok {
+					if sw, ok := pm[blk].(*ast.SwitchStmt); ok {
+						tag = sw.Tag
+					}
+				}
+				out = append(out, implied(x.List[0], tag, true)...)
+			}
+		}
+	}
+	return out
+}
